@@ -94,9 +94,10 @@ void DoDecode(u16 opcode, DecodeInfo* out) {
     out->need_expansion = mt.NeedExpansion();
     out->mask = mt.mask;
     out->expected = mt.expected;
-    if (out->row < kRowCount && std::strcmp(kRows[out->row].name, mt.GetName()) == 0)
+    if (out->row < kRowCount && std::strcmp(kRows[out->row].name, mt.GetName()) == 0) {
         out->unused = kRows[out->row].unused;
-    else
+        out->unused2 = kRows[out->row].unused2;
+    } else
         out->unused = 0xFFFF; // table text and table object disagree: flagged by the harness
     Rec rec;
     rec.out = out;
